@@ -65,6 +65,7 @@ type c17Stream struct {
 	withData bool  // the firing Read delivers its chunk together with the timeout error (quic-go: bytesRead>0, errDeadline)
 	end      int
 	setErr   error // returned by the first SetReadDeadline
+	readMax  int   // > 0: no Read hands out more than this many bytes (on top of cuts); 0 = only cuts and len(p) bound a read
 
 	pos          int
 	reads        int
@@ -115,6 +116,9 @@ func (s *c17Stream) Read(p []byte) (int, error) {
 			end = c
 			break
 		}
+	}
+	if s.readMax > 0 && end-s.pos > s.readMax {
+		end = s.pos + s.readMax
 	}
 	n := copy(p, s.data[s.pos:end])
 	s.pos += n
@@ -378,6 +382,61 @@ func c17Templates() []c17Template {
 	return ts
 }
 
+// c17LimitTemplates: HTTP first flights whose header block (request line .. blank line) is exactly
+// hdr bytes long, for hdr around and above the sniffer's header limit (sniffMaxHTTPHeaderBytes),
+// with or without a body behind it. The Host line comes second, so the name is "present in those
+// bytes" long before the limit; whether a sniffer that stops at its limit still recognises it is
+// left open (Either): the transparency clause is what these are for.
+// (Added after the independently seeded change C17-13: the HTTP branch enforced its 256 KiB cap
+// after the stream read instead of before it, so the tail of the read that crossed the cap was
+// consumed from the stream and neither put back nor left unread.)
+var c17LimitTemplatesCache []c17Template
+
+func c17LimitTemplates() []c17Template {
+	if c17LimitTemplatesCache != nil {
+		return c17LimitTemplatesCache
+	}
+	const lim = sniffMaxHTTPHeaderBytes
+	var ts []c17Template
+	for _, v := range []struct {
+		name      string
+		hdr, body int
+	}{
+		{"http-header-limit-minus-1+body", lim - 1, 5000},
+		{"http-header-limit+body", lim, 5000},
+		{"http-header-limit-bare", lim, 0},
+		{"http-header-limit-plus-1+body", lim + 1, 5000},
+		{"http-header-limit-plus-1-bare", lim + 1, 0},
+		{"http-header-limit-plus-4096+body", lim + 4096, 5000},
+		{"http-header-300k+body", 300*1024 - 5000, 5000},
+	} {
+		var b bytes.Buffer
+		b.WriteString("POST /limit HTTP/1.1\r\nHost: limit.example\r\n")
+		left := v.hdr - b.Len() - 2 // bytes of filler header lines before the blank line
+		for i := 0; left > 0; i++ {
+			n := 1000
+			if left < 1000+20 {
+				n = left
+			}
+			line := fmt.Sprintf("X-Fill-%04d: ", i)
+			b.WriteString(line)
+			b.WriteString(strings.Repeat("f", n-len(line)-2))
+			b.WriteString("\r\n")
+			left -= n
+		}
+		b.WriteString("\r\n")
+		if b.Len() != v.hdr {
+			panic(fmt.Sprintf("c17: limit template %s: header block of %d bytes, wanted %d", v.name, b.Len(), v.hdr))
+		}
+		for i := 0; i < v.body; i++ {
+			b.WriteByte(byte('0' + i%77)) // no run repeats at a distance of 4096 or of a read size
+		}
+		ts = append(ts, c17Template{Name: v.name, Data: b.Bytes(), ExpHost: "limit.example", NeedLen: v.hdr, Port: "80", Either: true})
+	}
+	c17LimitTemplatesCache = ts
+	return ts
+}
+
 // ---------------------------------------------------------------------------------------------
 // one case
 
@@ -388,7 +447,8 @@ type c17TCPCase struct {
 	NeedLen  int    `json:"need_len,omitempty"`
 	Either   bool   `json:"either,omitempty"`
 	Cuts     []int  `json:"cuts,omitempty"`
-	FireAt   int    `json:"fire_at_read"` // -1 = never
+	ReadMax  int    `json:"read_max,omitempty"` // > 0: the stream hands out at most this many bytes per Read
+	FireAt   int    `json:"fire_at_read"`       // -1 = never
 	WithData bool   `json:"fire_with_data,omitempty"`
 	End      int    `json:"end"`
 	Filter   string `json:"port_filter"` // nil | has | not
@@ -464,7 +524,7 @@ func c17RunTCP(c *c17TCPCase) (res c17TCPResult) {
 
 func c17RunTCPInner(c *c17TCPCase) (res c17TCPResult) {
 	sent := append([]byte(nil), c.Data...)
-	st := &c17Stream{data: append(make([]byte, 0, len(c.Data)), c.Data...), cuts: c.Cuts, fireAt: c.FireAt, withData: c.WithData, end: c.End}
+	st := &c17Stream{data: append(make([]byte, 0, len(c.Data)), c.Data...), cuts: c.Cuts, readMax: c.ReadMax, fireAt: c.FireAt, withData: c.WithData, end: c.End}
 	if c.SetErr {
 		st.setErr = errors.New("c17: stream already reset")
 	}
@@ -656,12 +716,13 @@ func c17EnumerateTCP(sh *evidence.Shard) {
 		"deadline":    "fires at the k-th Read call for every k the sniffer reaches (pure timeout, or delivered together with that read's chunk), or never",
 		"end":         []string{"client idle: read blocks until the deadline", "client FIN: (0,EOF)", "FIN with the last chunk: (n,EOF)", "stream reset after the last byte: (0,other error)"},
 		"port_filter": []string{"nil", "contains the port", "excludes the port"}, "rewrite_domain": []bool{true, false},
-		"req_addr":            []string{"10.1.2.3:<port>", "[2001:db8::7]:<port>", "orig.example.net:<port>"},
-		"timeout":             "Sniffer.Timeout 0 (default) with the nil filter, 1.5s with the others",
-		"set_deadline_fails":  "once per template x hooked configuration (unsplit stream)",
-		"unhooked_configs":    "configurations for which Check must be false (filter excludes the port; domain destination without RewriteDomain): one run per end mode, the stream must not be touched",
-		"primary_configs":     []string{"nil filter, RewriteDomain, IPv4", "filter contains port, no RewriteDomain, IPv6", "nil filter, RewriteDomain, domain"},
-		"structural_boundary": "3 (probe), 5 (TLS header), request line end, Host line start/value/end, header end, 4096-byte buffer refills, handshake header, server_name start/end, record end",
+		"req_addr":                 []string{"10.1.2.3:<port>", "[2001:db8::7]:<port>", "orig.example.net:<port>"},
+		"timeout":                  "Sniffer.Timeout 0 (default) with the nil filter, 1.5s with the others",
+		"set_deadline_fails":       "once per template x hooked configuration (unsplit stream)",
+		"header_limit_x_read_size": "HTTP header blocks of exactly {limit-1, limit, limit+1, limit+4096, 300 KiB - 5000} bytes (limit = sniffMaxHTTPHeaderBytes) with a 5000-byte body, limit and limit+1 also without body x the stream hands out at most {1000, 1777, 4096, 1 MiB} bytes per Read x 4 end-of-data behaviours x deadline {never, at the last / last but one / middle Read the sniffer issues, pure and with data} x the 3 primary configurations (thorough: every hooked configuration)",
+		"unhooked_configs":         "configurations for which Check must be false (filter excludes the port; domain destination without RewriteDomain): one run per end mode, the stream must not be touched",
+		"primary_configs":          []string{"nil filter, RewriteDomain, IPv4", "filter contains port, no RewriteDomain, IPv6", "nil filter, RewriteDomain, domain"},
+		"structural_boundary":      "3 (probe), 5 (TLS header), request line end, Host line start/value/end, header end, 4096-byte buffer refills, handshake header, server_name start/end, record end",
 	}
 	lim := &c17Limiter{}
 	var item int64
@@ -686,7 +747,7 @@ func c17EnumerateTCP(sh *evidence.Shard) {
 		case c.NeedLen > 0 && r.pos >= c.NeedLen:
 			consumed = "header-complete"
 		}
-		p.Class(c.Template, "|", c.Filter, c.RD, c.Addr, "|", len(c.Cuts), fired, c.End, "|", r.hooked, r.rewrote, consumed, r.clauseID)
+		p.Class(c.Template, "|", c.Filter, c.RD, c.Addr, "|", len(c.Cuts), c.ReadMax, fired, c.End, "|", r.hooked, r.rewrote, consumed, r.clauseID)
 		if r.rewrote {
 			p.Count("destination_rewritten", 1)
 		}
@@ -723,6 +784,41 @@ func c17EnumerateTCP(sh *evidence.Shard) {
 				c := c17TCPCase{Template: t.Name, Data: t.Data, ExpHost: t.ExpHost, NeedLen: t.NeedLen, Either: t.Either, FireAt: -1,
 					Filter: "nil", RD: true, Addr: net.JoinHostPort(host, port), End: c17EndEOF}
 				run1(&c)
+			}
+		}
+	}
+	// header blocks around and above the sniffer's header limit x the size of the stream's reads:
+	// the parser is still reading when the limit is reached, and the read that crosses it is
+	// larger than the room left for (nearly) every read size. Judged by the same clauses.
+	// (Added after the independently seeded change C17-13: the 256 KiB cap was applied after the
+	// stream read, the tail of the crossing read was lost.)
+	for _, t := range c17LimitTemplates() {
+		for _, cfg := range c17Configs() {
+			base := c17TCPCase{Template: t.Name, Data: t.Data, ExpHost: t.ExpHost, NeedLen: t.NeedLen, Either: t.Either, FireAt: -1,
+				Filter: cfg.Filter, RD: cfg.RD, Addr: net.JoinHostPort(cfg.Host, t.Port)}
+			if !c17WantHooked(&base) || (!cfg.Primary && !th) {
+				continue
+			}
+			for _, readMax := range []int{1000, 1777, 4096, 1 << 20} {
+				for _, end := range []int{c17EndBlock, c17EndEOF, c17EndEOFData, c17EndReset} {
+					item++
+					if !env.Mine(item) {
+						continue
+					}
+					c := base
+					c.ReadMax, c.End = readMax, end
+					r := run1(&c)
+					for _, k := range []int{r.reads - 1, r.reads - 2, r.reads / 2} {
+						for _, wd := range []bool{false, true} {
+							if k < 0 {
+								continue
+							}
+							ck := c
+							ck.FireAt, ck.WithData = k, wd
+							run1(&ck)
+						}
+					}
+				}
 			}
 		}
 	}
